@@ -426,9 +426,14 @@ def _check_result_tuple(res, flow: Flow, work_get_pred, functor_pred) -> Tuple[b
             if d.kind != "unpack" or d.index != (idx,):
                 return False
             item = d.value
-            item = flow.expand(item) if isinstance(item, ast.Name) else item
-            if not (isinstance(item, ast.Call) and work_get_pred(item)):
-                return False
+            # the unpacked item may be a local with several definitions, all of them reads of the work queue
+            # (a priming read before the loop and the re-read at its end)
+            sources = [item]
+            if isinstance(item, ast.Name):
+                sources = [x.value for x in flow.defs_of(item)] or [item]
+            for it_ in sources:
+                if not (isinstance(it_, ast.Call) and work_get_pred(it_)):
+                    return False
         return True
 
     if not from_work_item(tag, 0):
@@ -451,3 +456,21 @@ def _check_result_tuple(res, flow: Flow, work_get_pred, functor_pred) -> Tuple[b
             return False, f"`{src(v.elt)}` is not the functor applied to the element"
         return True, ""
     return False, f"second component `{src(v)}` is not an order-preserving unfiltered map of the functor"
+
+
+def chunk_generators(prog, cls, host: Func) -> List[Func]:
+    """the generators ``host`` draws its chunks from: generators nested in it, and generator methods / static methods of its class
+    (or private generator functions of its module) that it calls"""
+    out = [g for g in host.nested.values() if g.is_generator]
+    seen = {g.qual for g in out}
+    for c in calls_in(host.node):
+        tgt = None
+        if isinstance(c.func, ast.Attribute) and isinstance(c.func.value, ast.Name) and cls is not None \
+                and c.func.value.id in ((host.self_name,) if host.self_name else ()) + (cls.name,):
+            tgt = prog.resolve(cls, c.func.attr)
+        elif isinstance(c.func, ast.Name):
+            tgt = prog.functions.get(f"{host.mod.name}.{c.func.id}")
+        if tgt is not None and tgt.is_generator and tgt.qual not in seen and not (tgt.cls is not None and tgt.cls.is_external):
+            seen.add(tgt.qual)
+            out.append(tgt)
+    return out
